@@ -31,7 +31,7 @@ def prepare(sc):
 
 def run(res, tier, a):
     harnesses = REPR + GC + (GC_THOROUGH if tier != "quick" else [])
-    per_cap = 600 if tier == "quick" else 2400
+    per_cap = 1500 if tier == "quick" else 3000
     t0 = time.time()
     results = {}
     with Scratch("C17") as sc:
